@@ -25,6 +25,8 @@ foreign!(NotAscii);
 foreign!(TooBig);
 foreign!(Empty);
 foreign!(ValErr);
+foreign!(Denied);
+foreign!(Needed);
 
 /// newtype used by container-level from/try_from subjects
 #[derive(Debug, Clone, PartialEq)]
@@ -194,6 +196,16 @@ pub fn unknown_uk<E: DeserializeError>(key: &str, accepted: &[&str], loc: ValueP
 pub fn unknown_unexp<E: DeserializeError>(key: &str, accepted: &[&str], loc: ValuePointerRef) -> E {
     log_call("unknown_unexp", format!("{key}|{accepted:?}"), Some(loc));
     take_cf_content(E::error::<Infallible>(None, ErrorKind::Unexpected { msg: format!("custom unknown <{key}>") }, loc))
+}
+
+/// custom functions that return an error type of their own (handed to the container's error type by the derive)
+pub fn unknown_foreign(key: &str, accepted: &[&str], loc: ValuePointerRef) -> Denied {
+    log_call("unknown_foreign", format!("{key}|{accepted:?}"), Some(loc));
+    Denied(format!("no such key <{key}>"))
+}
+pub fn missing_foreign(key: &str, loc: ValuePointerRef) -> Needed {
+    log_call("missing_foreign", key.to_string(), Some(loc));
+    Needed(format!("<{key}> is mandatory"))
 }
 
 // ---- defaults ----------------------------------------------------------------------------------
